@@ -3,7 +3,7 @@
   the list of passes.  The invariant carried along is `Closed` together with "package names are
   pairwise distinct" (several passes look objects up by package).
 -/
-import Cog.Closed.AnonStructs
+import Cog.Closed.CreatingPasses
 import Cog.Gen.Chains
 namespace Cog.Closed
 open Cog Cog.IR Cog.Passes
@@ -19,7 +19,8 @@ theorem keeps_of_mono {S S' : Schemas} (hi : ChainInv S) (h : Closed S' ∧ Keys
 def provenPass : PassId → Bool
   | .anonymousStructsToNamed | .notRequiredFieldAsNullableType | .disjunctionWithNullToOptional
   | .disjunctionOfConstantsToEnum | .prefixEnumValues | .flattenDisjunctions | .disjunctionInferMapping
-  | .undiscriminatedDisjunctionToAny | .sanitizeEnumMemberNames | .renameNumericEnumValues => true
+  | .undiscriminatedDisjunctionToAny | .sanitizeEnumMemberNames | .renameNumericEnumValues
+  | .anonymousEnumToExplicitType | .disjunctionOfAnonymousStructsToExplicit | .disjunctionToType => true
   | _ => false
 
 theorem proven_keeps (p : PassId) (h : provenPass p = true) : passKeeps p.run := by
@@ -35,9 +36,10 @@ theorem proven_keeps (p : PassId) (h : provenPass p = true) : passKeeps p.run :=
   | undiscriminatedDisjunctionToAny => exact keeps_of_mono hi (C_undiscriminatedDisjunctionToAny S S' hi.1 hr)
   | sanitizeEnumMemberNames => exact keeps_of_mono hi (C_sanitizeEnumMemberNames S S' hi.1 hr)
   | renameNumericEnumValues => exact keeps_of_mono hi (C_renameNumericEnumValues S S' hi.1 hr)
-  | anonymousEnumToExplicitType => simp [provenPass] at h
-  | disjunctionOfAnonymousStructsToExplicit => simp [provenPass] at h
-  | disjunctionToType => simp [provenPass] at h
+  | anonymousEnumToExplicitType => exact keeps_of_mono hi (C_anonymousEnumToExplicitType S S' hi.1 hi.2 hr)
+  | disjunctionOfAnonymousStructsToExplicit =>
+    exact keeps_of_mono hi (C_disjunctionOfAnonymousStructsToExplicit S S' hi.1 hi.2 hr)
+  | disjunctionToType => exact keeps_of_mono hi (C_disjunctionToType S S' hi.1 hi.2 hr)
   | removeIntersections => simp [provenPass] at h
   | inlineObjectsWithTypes k => simp [provenPass] at h
 
